@@ -43,7 +43,7 @@ def ft_sh_phase_screen(r0, N, delta, L0, l0, FFT=None, seed=None):
 
     D = N * delta
     # high-frequency screen from FFT method
-    phs_hi = ft_phase_screen(r0, N, delta, L0, l0, FFT, seed=seed)
+    phs_hi = ft_phase_screen(r0, N, delta, L0, l0, FFT, seed=R)
 
     # spatial grid [m]
     coords = numpy.arange(-N/2,N/2)*delta
